@@ -1490,8 +1490,10 @@ class Repository:
                 with glock:
                     digests = files_digests[file_path]
                     digests.remove(digest)
+                    # Decide under the lock: exactly one loader sees the set become empty
+                    finished = not digests
 
-                if not digests:
+                if finished:
                     logger.info('Finished writing file %s', file_path)
                     with glock:
                         restore_path, metadata = files_metadata.pop(file_path)
